@@ -265,16 +265,17 @@ func ruleCtxExternal(r *core.Report, ruleID string, roots []*ssa.Function) {
 	blocking := map[string]string{
 		"(*net.UDPConn).ReadFromUDP":                             needWatcher,
 		"net.Dial":                                               needWatcher,
+		"(*net.Dialer).DialContext":                              needCtxArg,
 		"golang.org/x/crypto/ssh.NewClientConn":                  needWatcher,
 		"(golang.org/x/crypto/ssh.Conn).SendRequest":             needWatcher,
 		"(*github.com/quic-go/quic-go.Transport).Dial":           needCtxArg,
 		"(github.com/quic-go/quic-go.Connection).OpenStreamSync": needCtxArg,
-		"io.ReadFull":                              needWatcher,
-		"encoding/binary.Read":                     needWatcher,
-		"encoding/binary.Write":                    needWatcher,
-		"(net.Buffers).WriteTo":                    needWatcher,
-		"(*net.Buffers).WriteTo":                   needWatcher,
-		"(*golang.org/x/sync/errgroup.Group).Wait": "join",
+		"io.ReadFull":                                            needWatcher,
+		"encoding/binary.Read":                                   needWatcher,
+		"encoding/binary.Write":                                  needWatcher,
+		"(net.Buffers).WriteTo":                                  needWatcher,
+		"(*net.Buffers).WriteTo":                                 needWatcher,
+		"(*golang.org/x/sync/errgroup.Group).Wait":               "join",
 	}
 	for _, root := range roots {
 		for _, fn := range staticReach(p, root, 3) {
